@@ -322,7 +322,13 @@ func readBack(r *Run, o *simObj, which int, what string, sers []*simdjson.Serial
 	}
 	if which&bSerial != 0 && !r.failed() && len(sers) > 0 {
 		s := sers[r.C.Intn("rbser", len(sers))]
-		out, _, err := RoundTrip(s, s, pj, nil)
+		// the result is read at once and not kept: the destination of the previous round trip of this run may be reused
+		var dst *simdjson.ParsedJson
+		if r.C.Intn("rbdst", 2) == 1 {
+			dst = r.serDst
+		}
+		out, _, err := RoundTrip(s, s, pj, dst)
+		r.serDst = out
 		if err != nil {
 			walkerFail(r, "W-ser", what+": serialize round trip", err)
 		} else {
@@ -614,12 +620,61 @@ func checkMarshalInner(r *Run, o *simObj, what string) {
 // ---- operations -----------------------------------------------------------------------------
 
 // genHistDoc draws a small document inline (shrinkable) or occasionally a bulk one.
+// genDeepMixed: depth levels of arrays and objects in drawn alternation, scalar siblings on some levels (positions for
+// edits and deletions at every depth) and a scalar at the bottom.
+func genDeepMixed(c *Chooser, depth int) []byte {
+	var b bytes.Buffer
+	closers := make([]byte, 0, depth)
+	tails := make([]string, 0, depth)
+	for i := 0; i < depth; i++ {
+		sib := c.Intn("deepsib", 6)
+		if c.Intn("deepobj", 2) == 1 {
+			b.WriteByte('{')
+			if sib == 0 {
+				fmt.Fprintf(&b, `"s%d":%d,`, i, i)
+			}
+			b.WriteString(`"k":`)
+			closers = append(closers, '}')
+			if sib == 1 {
+				tails = append(tails, fmt.Sprintf(`,"t%d":"v%d"`, i, i))
+			} else {
+				tails = append(tails, "")
+			}
+		} else {
+			b.WriteByte('[')
+			if sib == 0 {
+				fmt.Fprintf(&b, `%d.5,`, i)
+			}
+			closers = append(closers, ']')
+			if sib == 1 {
+				tails = append(tails, `,null`)
+			} else if sib == 2 {
+				tails = append(tails, `,[],{}`)
+			} else {
+				tails = append(tails, "")
+			}
+		}
+	}
+	b.WriteString([]string{`1`, `"leaf"`, `{}`, `[]`, `true`, `-2.5e3`}[c.Intn("deepleaf", 6)])
+	for i := depth - 1; i >= 0; i-- {
+		b.WriteString(tails[i])
+		b.WriteByte(closers[i])
+	}
+	return b.Bytes()
+}
+
 func genHistDoc(r *Run, nd bool, big bool) []byte {
 	c := r.C
 	one := func(target int) []byte {
 		fam := []int{FamMixed, FamMixed, FamKeyed, FamNumbers, FamStrings, FamMixed}[c.Intn("hfam", 6)]
 		if big {
 			return GenBulkDoc(c, target, []int{fam}).B
+		}
+		if c.Intn("hdeep", 14) == 0 {
+			// nesting around and beyond every power of two a fixed-size scope table might have
+			lo := []int{5, 60, 120, 250, 505, 1015, 2040}[c.Intn("hdeepclass", 7)]
+			r.stat("deep_documents", 1)
+			return genDeepMixed(c, lo+c.Intn("hdeepvar", 20))
 		}
 		return GenDoc(c, DocSpec{Family: fam, Target: target, WS: c.Pick("hws", 5, 2, 1), MaxDepth: 4, StrMax: 40}).B
 	}
